@@ -155,16 +155,25 @@ def verify_function(prog, db, q, contract, case=None):
 
 
 def apply_hints(ex, contract, where, loc, s):
-    """hint(at='return'|'raise', assume=<expr>) adds a *lemma instance* (proved elsewhere / listed as assumption)"""
+    """hint(<formula>, at='return'|'raise'): a lemma *instance* (definition unfolding or a cited / Lean-proved lemma, listed under
+    assumptions) evaluated over the locals of the path; a hint mentioning a local that does not exist on this path is skipped"""
     for cl in contract.of('hint'):
         at = ast.literal_eval(cl.kw['at']) if 'at' in cl.kw else 'return'
         if at != where:
             continue
         for a in cl.args:
-            f = ex.truth(ex.evs(a, loc), loc)
-            s.pc[:] = loc.pc
+            h = State(dict(s.env), s.heap, s.ver, s.pc, s.ghost)
+            if 'result' in loc.env:
+                h.env['result'] = loc.env['result']
+            try:
+                f = ex.truth(ex.evs(a, h), h)
+            except Unsupported as u:
+                if 'unbound name' in str(u):
+                    continue
+                raise
+            s.pc[:] = h.pc
             s.assume(f)
-            loc.pc = list(s.pc)
+            loc.pc = s.pc
 
 
 def check_fresh(ex, s, v, node):
